@@ -11,7 +11,7 @@ import unit_scaling.functional as U
 from vlib.runner import CaseResult, Check, Part, exc_bucket, main
 
 taus = st.one_of(st.sampled_from([0.01, 0.5, 1.0, 1e-3, 1e3, 2.0]), st.floats(math.log(1e-3), math.log(1e3)).map(lambda v: float(f"{math.exp(v):.6g}")))
-LEAF = ["W", "tanh", "sin", "sq", "ugelu", "ulinear", "usilu"]
+LEAF = ["W", "tanh", "sin", "sq", "ugelu", "ulinear", "usilu", "pool"]
 
 
 def layer_st(depth):
@@ -58,6 +58,9 @@ def leaf_apply(op, x, Ws, ctr):
     if k == "ulinear":
         ctr[0] += 1
         return U.linear(x, Ws[ctr[0] % 4], None)
+    if k == "pool":
+        # a branch whose output has to be broadcast against the skip tensor: (..., n, h) -> (..., 1, h)
+        return x.mean(dim=-2, keepdim=True) if x.dim() >= 2 else x
     raise KeyError(k)
 
 
@@ -135,13 +138,15 @@ def run(c) -> CaseResult:
         res.fail("C06.input-gradient", f"x.grad differs from the derivative of the closed form: rel {e_grad:.3g}")
     for tau, rec in hooks:
         if "branch" in rec and "out" in rec:
-            e = rel(rec["branch"], rec["out"]) if rec["out"].abs().max() > 0 else 0.0
+            want = rec["out"] if rec["out"].shape == rec["branch"].shape else rec["out"].sum_to_size(rec["branch"].shape)
+            e = rel(rec["branch"], want) if want.abs().max() > 0 else 0.0
             if not e <= 1e-12:
                 res.fail("C06.branch-gradient-attenuated", f"gradient at the branch output differs from the gradient of the add output by rel {e:.3g} (tau={tau})")
                 break
     n, nested = count(c["layers"])
     res.nontrivial = any(l["tau"] != 1.0 for l in c["layers"])
     res.labels += [f"nesting={nested}"] + (["sequential>=3"] if len(c["layers"]) >= 3 else []) + \
+        (["broadcast-branch"] if "pool" in str(c["layers"]) and len(c["lead"]) >= 1 else []) + \
         (["unit-scaled-op-in-branch"] if "ugelu" in str(c["layers"]) or "ulinear" in str(c["layers"]) else [])
     return res
 
@@ -199,7 +204,7 @@ CHECK = Check(
     parts=[Part("programs", run, strategy=cases, budget={"quick": 700, "thorough": 15000}),
            Part("primitives", run_prim, strategy=prim_cases, budget={"quick": 500, "thorough": 8000})],
     rule=("programs: recursive Hypothesis strategy - 1-8 sequential residual layers, each Residual(tau, branch) with branch a sequence of "
-          "1-3 of {fixed matrix, tanh, sin, 2 tanh(x)^2, U.gelu, U.silu, U.linear, nested layer} (nesting <= 3), each layer written either as "
+          "1-3 of {fixed matrix, tanh, sin, 2 tanh(x)^2, U.gelu, U.silu, U.linear, mean-pool over the second-last dim (branch output broadcast against the skip), nested layer} (nesting <= 3), each layer written either as "
           "split/f/add or residual_apply; tau log-uniform in [1e-3,1e3] + {0.01,0.5,1}; float64 inputs of rank 1-3. Oracle: the same tree "
           "evaluated with plain torch as (x + tau f(x))/sqrt(1+tau^2) and autograd (outputs rel 1e-10, x.grad rel 1e-9); hooks on branch "
           "output vs add output (rel 1e-12). primitives: mixing weights, residual_apply bitwise equal to split/f/add, gradcheck. "
